@@ -64,7 +64,13 @@ impl Datastore {
             what: format!("{file} in datastore"),
             path: path.clone(),
         })?;
-        tokio::fs::write(&path, bytes)
+        // Write to a temporary file in the same directory and rename it into place, so that an
+        // interrupted or failed write never replaces the previous contents with a partial file.
+        let tmp_path = lock.path().join(format!(".{file}.tmp"));
+        tokio::fs::write(&tmp_path, bytes)
+            .await
+            .context(error::DatastoreCreateSnafu { path: &tmp_path })?;
+        tokio::fs::rename(&tmp_path, &path)
             .await
             .context(error::DatastoreCreateSnafu { path: &path })
     }
